@@ -3,7 +3,7 @@
     what the implementation returned.  [*_mismatch]: model vs implementation.
     [*_violates]: the property acceptor rejects what the implementation did. *)
 From Coq Require Import Uint63.
-From WM Require Import Base.Prelude Message.Model Value.Model Value.Codec.
+From WM Require Import Base.Prelude Message.Model Value.Model Value.Codec Value.Json.
 
 (** long byte strings arrive packed, 7 bytes per primitive 63-bit integer (little endian), the
     last word holding [tail] bytes: one cheap token per 7 bytes for Coq's parser.  Only the
@@ -253,6 +253,73 @@ Definition ru_mismatch (c : ru_case) : bool :=
 Record u8_case := U8C { w_s : str; w_valid : bool }.
 Definition u8_mismatch (c : u8_case) : bool := negb (Bool.eqb (utf8_valid (w_s c)) (w_valid c)).
 Definition u8_mismatches (cs : list u8_case) := positions (map u8_mismatch cs).
+
+(** * round "proofs": the Gallina JSON string codec, base64 and envelope text against Go *)
+Record js_case := JsC { j_s : str; j_enc : list N; j_lit : list N; j_dec : option (list N) }.
+Definition js_mismatch (c : js_case) : bool :=
+  negb (bytes_eqb (enc_str (j_s c)) (j_enc c) && option_eqb bytes_eqb (dec_str (j_lit c)) (j_dec c)).
+Record b64_case := B64C { b_b : list N; b_enc : list N; b_in : list N; b_dec : option (list N) }.
+Definition b64_mismatch (c : b64_case) : bool :=
+  negb (bytes_eqb (b64enc (b_b c)) (b_enc c) && option_eqb bytes_eqb (b64dec (b_in c)) (b_dec c)).
+
+(** the envelope text: the model writes the very bytes the implementation wrote, and reads any
+    payload the way the implementation does, given only the member split of the objects involved *)
+Record jw_case := JwC {
+  jw_wrap : option (str * msg);                 (* wrap cases: destination and message *)
+  jw_valid : bool;
+  jw_p : option (list N);                       (* payload of the envelope message *)
+  jw_frames : list (list N * option (list (list N * list N)));   (* the unframe oracle, tabulated by the harness *)
+  jw_got : res (str * msg)                      (* real unwrapMessageFromEnvelope *)
+}.
+Definition unframe_tbl (c : jw_case) (b : list N) : option (list (list N * list N)) :=
+  match assoc bytes_eqb (jw_frames c) b with Some r => r | None => None end.
+Definition jw_mismatch (c : jw_case) : bool :=
+  (match jw_wrap c with
+   | Some (d, m) => negb (option_eqb bytes_eqb (jenc_env (env_of d m)) (jw_p c))
+   | None => false
+   end)
+  || negb (res_eqb pair_eqb (unwrap (jdec_env (unframe_tbl c)) (Msg [] (jw_p c) (Some []))) (jw_got c)).
+Definition jw_violates (c : jw_case) : bool :=
+  match jw_wrap c with
+  | Some (d, m) => jw_valid c && negb (envelope_rt_ok d m (jw_got c))
+  | None => match jw_got c with Ok (d, _) => str_eqb d [] | Err _ => false end
+  end.
+(** message context through the envelope: the model's wrap_c / unwrap_c against the observed contexts *)
+Record ctx_case := CtxC { x_in : N; x_delivered : N; x_wrapped : N; x_unwrapped : N }.
+Definition ctx_mismatch (c : ctx_case) : bool :=
+  let m0 := Msg [] None None in
+  match wrap_c (fun _ => Some []) [85]%N [116]%N (m0, x_in c) with
+  | Ok w =>
+      negb (N.eqb (snd w) (x_wrapped c)
+            && match unwrap_c (fun _ => Some (env_of [116]%N m0)) (fst w, x_delivered c) with
+               | Ok (_, (_, cu)) => N.eqb cu (x_unwrapped c)
+               | Err _ => false
+               end)
+  | Err _ => true
+  end.
+Definition ctx_mismatches (cs : list ctx_case) := positions (map ctx_mismatch cs).
+
+(** different marshalers on the two sides *)
+Record cc_case := CcC { y_c : cq_case; y_kind_u : nat; y_nofb_u : bool }.
+Definition cc_unmarshal (x : cc_case) (m : msg) : res str :=
+  let c := y_c x in
+  match y_kind_u x with
+  | 1 => proto_unmarshal str (k_ismsg c) (fun _ => k_vdec c) m
+  | _ => gogo_unmarshal str (k_ismsg c) (fun _ => k_vdec c) (k_isgogo c) (fun _ => k_gdec c) (y_nofb_u x) repo_gogo_fixed m
+  end.
+Definition cc_mismatch (x : cc_case) : bool :=
+  let c := y_c x in
+  negb (res_eqb msg_obs_eqb (cq_marshal c) (k_marshal c)
+        && match k_marshal c with
+           | Ok m => res_eqb str_eqb (cc_unmarshal x m) (k_unmarshal c)
+           | Err _ => true
+           end).
+Definition cc_mismatches (cs : list cc_case) := positions (map cc_mismatch cs).
+
+Definition js_mismatches (cs : list js_case) := positions (map js_mismatch cs).
+Definition b64_mismatches (cs : list b64_case) := positions (map b64_mismatch cs).
+Definition jw_mismatches (cs : list jw_case) := positions (map jw_mismatch cs).
+Definition jw_violations (cs : list jw_case) := positions (map jw_violates cs).
 
 Definition eq_mismatches (cs : list eq_case) := positions (map eq_mismatch cs).
 Definition eq_violations (cs : list eq_case) := positions (map eq_violates cs).
